@@ -160,10 +160,11 @@ Print Assumptions html_template_text_clean.
    end tag (Script.raw_len = length): the tag tokens and ONE Text to the end; an svg / math / xml element without its end
    tag whose bytes after the name are read by shiftXML's first loop up to the end of input (WfDoc.ICutForeign over the step
    function Wf.xml_step: the cut may fall in character data, inside a tag, a quoted attribute value, a comment, a CDATA
-   section or a processing instruction; no NUL): ONE SVG / Math / XML token to the end, no error.  In each case the
-   end-of-input report follows.
+   section or a processing instruction; no NUL): ONE SVG / Math / XML token to the end, no error; the same element cut
+   inside its end tag, after "</" name and whitespace (WfDoc.ICutForeignEnd): ONE token to the end, no error.  In each
+   case the end-of-input report follows.
    A tag cut inside the whitespace after its name or after an attribute: html_wellformed_cut_tag_ws below.
-   NOT covered (correspondence + Go oracle only): an svg / math / xml element cut inside its own end tag; raw content that is empty (html_rawtext_end_exact
+   NOT covered (correspondence + Go oracle only): raw content that is empty (html_rawtext_end_exact
    says where raw content ends in general); text containing a '<' that opens nothing (other than at the end of input);
    names containing '/'; templates. *)
 Theorem html_wellformed_tokens_partial :
